@@ -69,7 +69,7 @@ def run_demos(runs):
     out = ""
     for rel, pat, race in runs:
         d = os.path.join(WT, rel)
-        if rel == "" or rel == ".":
+        if not rel.startswith("v5"):
             open(os.path.join(WT, "go.mod"), "w").write(LEGACY_GOMOD)
             shutil.copy(os.path.join(WT, "v5/go.sum"), os.path.join(WT, "go.sum"))
         cmd = f"go test -vet=off -count=1 {'-race ' if race else ''}-run '{pat}' ."
